@@ -110,6 +110,7 @@ class Tracker:
         self.local_resets = {}      # sid -> seq at which this endpoint sent RST_STREAM
         self.refused_promises = {}  # promised sid -> parent
         self.initial_settings = None
+        self.table_size_changed = False     # this endpoint changed its HEADER_TABLE_SIZE after the handshake
         self.hi_peer_maybe = set()  # highest id of a delivered HEADERS that tried to open a peer stream
 
     # -- helpers -----------------------------------------------------------
@@ -196,6 +197,8 @@ class Tracker:
                         self._apply_my_setting(k, v)
                     self.initial_settings = pairs
                     pairs = []
+                elif any(k == C.S_HEADER_TABLE_SIZE for k, _ in pairs):
+                    self.table_size_changed = True
                 self.sent_settings.append(pairs)
                 self.sent_settings_total += 1
             return
